@@ -166,6 +166,27 @@ class WriterHist(Engine):
                 vn = rw.choice(same) if same and rw.random() < 0.6 else rw.choice(["v", "x", "X", "at", "2", "a b", "obj"])
                 ad["quant"] = {"kind": rw.choice(["exists", "forall"]), "var": vn, "type": vt, "fluent": f["name"]}
             actions.append(ad)
+        # round 8 (scale): LONG free-form names, 3-40 characters most of which are not valid in PDDL (a stream of its
+        # own: the other runs are what they were).  Only objects and actions are renamed: nothing refers to them by name.
+        rlong = stream(seed, "long")
+        if rlong.random() < 0.3:
+            def long_name(taken):
+                for _ in range(20):
+                    n = rlong.choice(["a", "Z", "9", "?", " "]) + "".join(
+                        rlong.choice("ab_-9 .:!?é()/\n\t") for _ in range(rlong.randint(2, 39)))
+                    if n not in taken:
+                        taken.add(n)
+                        return n
+                return None
+            for _ in range(rlong.randint(1, 3)):
+                if rlong.random() < 0.5:
+                    n = long_name(ot)
+                    if n is not None:
+                        rlong.choice(objects)[0] = n
+                else:
+                    n = long_name(at)
+                    if n is not None:
+                        rlong.choice(actions)["name"] = n
         world = {"types": types, "objects": objects, "fluents": fluents, "actions": actions, "dup": dup,
                  "traj": rw.random() < 0.2}
         ops = []
